@@ -23,6 +23,10 @@ from .protocol import GeminiServerProtocol
 
 logger = get_logger(__name__)
 
+# Time allowed for completing the TLS handshake, in seconds (the request timeout
+# of the inner protocol only starts once the handshake is done)
+HANDSHAKE_TIMEOUT = 30.0
+
 
 class TLSServerProtocol(asyncio.Protocol):
     """Wraps GeminiServerProtocol with manual PyOpenSSL TLS handling.
@@ -71,6 +75,9 @@ class TLSServerProtocol(asyncio.Protocol):
         # Peer address for logging
         self._peer_name: tuple[str, int] | None = None
 
+        # Timer that disconnects peers which never complete the handshake
+        self._handshake_timer: asyncio.TimerHandle | None = None
+
     def connection_made(self, transport: asyncio.BaseTransport) -> None:
         """Initialize TLS connection when TCP connection is established.
 
@@ -83,6 +90,16 @@ class TLSServerProtocol(asyncio.Protocol):
         # Create PyOpenSSL connection in server mode with memory BIO
         self.tls_conn = SSL.Connection(self.ssl_context, None)
         self.tls_conn.set_accept_state()
+
+        # A silent peer must not hold the connection open for ever
+        try:
+            loop = asyncio.get_running_loop()
+            self._handshake_timer = loop.call_later(
+                HANDSHAKE_TIMEOUT, self._handle_handshake_timeout
+            )
+        except RuntimeError:
+            # No event loop running (probably in tests)
+            self._handshake_timer = None
 
         logger.debug(
             "tls_connection_started",
@@ -119,6 +136,7 @@ class TLSServerProtocol(asyncio.Protocol):
         try:
             self.tls_conn.do_handshake()
             self.handshake_complete = True
+            self._cancel_handshake_timer()
 
             logger.debug(
                 "tls_handshake_complete",
@@ -221,6 +239,18 @@ class TLSServerProtocol(asyncio.Protocol):
         except SSL.Error:
             pass
 
+    def _cancel_handshake_timer(self) -> None:
+        """Cancel the handshake timer if it is still pending."""
+        if self._handshake_timer:
+            self._handshake_timer.cancel()
+            self._handshake_timer = None
+
+    def _handle_handshake_timeout(self) -> None:
+        """Disconnect a peer that did not complete the TLS handshake in time."""
+        self._handshake_timer = None
+        if not self.handshake_complete:
+            self._close_with_error("TLS handshake timeout")
+
     def _close_with_error(self, message: str) -> None:
         """Close connection due to error.
 
@@ -248,6 +278,7 @@ class TLSServerProtocol(asyncio.Protocol):
         Args:
             exc: Exception if connection closed due to error, None for clean close.
         """
+        self._cancel_handshake_timer()
         if self.inner_protocol:
             self.inner_protocol.connection_lost(exc)
 
